@@ -1692,6 +1692,43 @@ def session_histories(ctx):
     for v in rep["violations"]:
         v["property"] = ctx.prop
     ctx.absorb(ctx.prop + "-histories", rep)
+    # sources outside the modelled subsets (several regex literals, transforms with scratch names): the expectation of a
+    # call is what it returns in a process of its own; every history must give every call that result
+    xs = ["find all @/(r)/ @/x(s)/", "find all @/x(s)/", "set f to transform set x to 1 set y to true return 'a' end replace all 'r' with f",
+          "set g to transform if y == '' then return head x + match end return 'n' end replace all 's' with g"]
+    xtexts = [list(b"rxs xs"), list(b"xsr")]
+    xexp = {}
+    for k, sct in enumerate(xs):
+        p = subprocess.run([ctx.get_harness(), "alone1"], input=json.dumps({"src": sct, "texts": xtexts}), capture_output=True, text=True, timeout=60)
+        try:
+            doc = json.loads(p.stdout)
+        except Exception:
+            raise Undecided("alone1 failed: " + p.stderr[-500:])
+        if "runs" not in doc:
+            raise Undecided("a history source does not compile alone: %s: %s" % (sct, doc))
+        for ti, ms in enumerate(doc["runs"]):
+            xexp["%d,%d" % (k, ti)] = ms
+    d2 = ctx.scratch.sub("hist2")
+    out2, sth2 = vlib.run_tlc(d2, "Histories", "SPECIFICATION Spec\nCONSTANTS NSrc = 4\nNText = 2\nMaxLen = %d\nFailSrc = 99\nINVARIANTS RunsWellFormed Emit\nCHECK_DEADLOCK FALSE\n" % n,
+                              workers=4, timeout=600, heap="2g")
+    if not sth2["ok"]:
+        raise Undecided("Histories.tla failed:\n" + vlib.tlc_error_excerpt(out2))
+    ip2, rp2 = os.path.join(d2, "in.ndjson"), os.path.join(d2, "report.json")
+    with open(ip2, "w") as f:
+        for k, doc in enumerate(vlib.tlc_json_lines(out2)):
+            h = json.loads(doc)
+            h.update({"id": k + 1, "srcs": xs, "texts": xtexts, "expect": xexp})
+            f.write(json.dumps(h, separators=(",", ":")) + "\n")
+    p = subprocess.run([ctx.get_harness(), "session", "-in", ip2, "-report", rp2], capture_output=True, text=True, timeout=900)
+    if p.returncode != 0 or not os.path.exists(rp2):
+        raise Undecided("session replay failed: " + p.stderr[-1500:])
+    with open(rp2) as f:
+        rep2 = json.load(f)
+    for k in ("abstained_quirk", "ast_checked", "ast_mismatch", "rejected_by_compile"):
+        rep2.setdefault(k, 0)
+    for v in rep2["violations"]:
+        v["property"] = ctx.prop
+    ctx.absorb(ctx.prop + "-histories-alone", rep2)
 
 
 RULES["C19"] = ("(i) all interleavings of 3 concurrent Compile processes (2, 1, 2 regex groups) of spec/Session.tla, locked "
